@@ -55,7 +55,8 @@ pub fn ev_scale() -> impl Strategy<Value = i32> {
 pub fn ev_place() -> impl Strategy<Value = Place> {
     prop_oneof![
         2 => crate::problems::fr(0.02, 0.98).prop_map(Place::Frac),
-        4 => (any::<u16>(), 1u8..9).prop_map(|(k, delta)| Place::Near { k, delta }),
+        4 => (any::<u16>(), 0u8..9).prop_map(|(k, delta)| Place::Near { k, delta }),
+        1 => (1u8..4, 0u8..9).prop_map(|(i, delta)| Place::NearIdx { i, delta }),
         4 => (any::<u16>(), crate::problems::fr(0.02, 0.98)).prop_map(|(k, f)| Place::Mid { k, f }),
     ]
 }
